@@ -42,6 +42,8 @@ OPTSETS = {
     "finite-mixed": (("finite-mixed",), "", False, False),
     "k-finite": (("finite",), "k", False, False),
     "smallest": ((), "", False, True),
+    "oneway": (("oneway",), "", False, False),
+    "oneway-k": (("oneway",), "k", False, False),
     "two": (("two",), "", False, False),
     "two-smallest": (("two",), "", False, True),
     "two-inferral": (("two", "inferral"), "", False, False),
@@ -229,9 +231,9 @@ def std_groups(tier, dbs=("base", "forget", "forest"), opts=None, sched=True, rn
     gs = []
     if opts is None:
         opts = ["plain", "iterative", "inferral", "symmetry", "factory", "factory2", "finite", "finite-ev", "smallest", "k", "kk", "ku", "two",
-                "two-smallest"]
+                "two-smallest", "oneway"]
         if tier == "thorough":
-            opts += ["inferral-symmetry", "inferral-factory-finite", "k-inferral", "ku-factory", "two-inferral", "two-k"]
+            opts += ["inferral-symmetry", "inferral-factory-finite", "k-inferral", "ku-factory", "two-inferral", "two-k", "oneway-k"]
 
     def add(name, fn, shape, expect=None, weight=10, timeout=1500.0):
         g = {"name": name, "fn": fn, "shape": shape, "cond_timeout": timeout, "path_timeout": 120.0, "weight": weight}
